@@ -12,3 +12,40 @@ func raceDisable() { runtime.RaceDisable() }
 
 //go:norace
 func raceEnable() { runtime.RaceEnable() }
+
+// Goroutines are pooled in race builds: the race detector never gives back what it allocates per
+// goroutine created (about 300 bytes; measured 150 MB per 500 000 goroutines), and a thorough run creates
+// hundreds of millions of them. A pooled goroutine runs at most ONE thread per execution (it returns to
+// the idle list only when the execution is over), so no happens-before edge is added between two threads
+// of one execution; the hand-over of the task through a real channel is the edge of the go statement
+// (parent happens-before child), exactly as before. The lists need no lock: one thread runs at a time.
+var (
+	poolIdle []chan func()
+	poolUsed []chan func()
+)
+
+//go:norace
+func spawn(fn func()) {
+	var c chan func()
+	if n := len(poolIdle); n > 0 {
+		c = poolIdle[n-1]
+		poolIdle = poolIdle[:n-1]
+	} else {
+		c = make(chan func())
+		go poolWorker(c)
+	}
+	poolUsed = append(poolUsed, c)
+	c <- fn
+}
+
+func poolWorker(c chan func()) {
+	for f := range c {
+		f()
+	}
+}
+
+//go:norace
+func releasePool() {
+	poolIdle = append(poolIdle, poolUsed...)
+	poolUsed = poolUsed[:0]
+}
